@@ -281,6 +281,19 @@ def r65(db, ctx):
             cls = classify(root.base)
             if cls[0] != 'SLICE':
                 continue
+            # a block drawn from `x.chunks_exact(n)`: the access stays inside that block of n elements, which chunks_exact guarantees to lie
+            # inside x (std contract: every yielded chunk has exactly n elements of x)
+            if len(steps) == 1 and isinstance(steps[0][1], tuple) and steps[0][1][0] == 'chunks' and cls[0] == 'SLICE':
+                _, coll, nchunk = steps[0][1]
+                step_b = steps[0][2].get('', 0)
+                c0 = off.get('', 0)
+                if set(off) <= {''} and c0 >= 0 and c0 + a.width <= step_b and coll == ('p', cls[1]):
+                    n += 1
+                    ctx.ok('R6.5', f, f'{a.name}: {a.width} bytes at offset {c0} of a chunk of {nchunk} elements ({step_b} bytes) of `{f.local_name(cls[1]) or cls[1]}`',
+                           ['chunks_exact yields whole chunks inside the slice'])
+                else:
+                    ctx.fail('R6.5', f, f'{a.name}', f'access of {a.width} bytes at offset {X.lin_str(off)} does not stay inside a chunk of {step_b} bytes', span=a.span)
+                continue
             # pointer = base + (step_p/step_c) * (c - c0) + off, for the loop H carrying it
             hyps = []
             lin = dict(off)
